@@ -9,3 +9,4 @@ import SoxrModel.Properties.C15
 #print axioms Soxr.Properties.C15.hearly_every_run
 #print axioms Soxr.Properties.C15.delay_after_flush_every_history
 #print axioms Soxr.Properties.C15.delay_gt_neg_one_every_history
+#print axioms Soxr.Properties.C15.delay_after_flush_any_phase
